@@ -964,6 +964,32 @@ static int t_export (const char *f, int budget)
   printf ("PASS %d\n", budget / 40); return 0;
 }
 
+
+static int t_misc (const char *f, int budget)
+{
+  for (int it = 0; it < budget / 4; it++)
+    {
+      if (!strcmp (f, "mpz_divisible_2exp_p"))
+        {
+          mpz_t a, r; mk_mpz (a, 4); mpz_init (r); unsigned long d = it % 3 == 0 ? 64 * (rnd64 () % 5) : rnd64 () % 300;
+          if (it % 2 && mpz_sgn (a)) mpz_mul_2exp (a, a, rnd64 () % 200);
+          mpz_tdiv_r_2exp (r, a, d); int want = mpz_sgn (r) == 0, got = mpz_divisible_2exp_p (a, d) != 0;
+          if (got != want) { failed (f); printf (" d=%lu", d); show_z ("a", a); printf (" got=%d want=%d\n", got, want); return 1; }
+          mpz_clear (a); mpz_clear (r);
+        }
+      else if (!strcmp (f, "mpq_equal"))
+        {
+          mpq_t a, b; mk_mpq (a, 3); mk_mpq (b, 3); mpq_canonicalize (a); mpq_canonicalize (b);
+          if (it % 3 == 0) mpq_set (b, a); if (it % 6 == 0 && mpz_size (mpq_denref (b)) > 1) mpq_denref (b)->_mp_d[0] ^= 2, mpq_canonicalize (b);
+          int want = mpz_cmp (mpq_numref (a), mpq_numref (b)) == 0 && mpz_cmp (mpq_denref (a), mpq_denref (b)) == 0, got = mpq_equal (a, b) != 0;
+          if (got != want) { failed (f); show_q ("a", a); show_q ("b", b); printf (" got=%d want=%d\n", got, want); return 1; }
+          mpq_clear (a); mpq_clear (b);
+        }
+      else { printf ("no native test for %s\n", f); return 3; }
+    }
+  printf ("PASS %d\n", budget / 4); return 0;
+}
+
 int main (int argc, char **argv)
 {
   if (argc < 4) { fprintf (stderr, "usage: native <function> <seed> <budget>\n"); return 2; }
@@ -986,6 +1012,7 @@ int main (int argc, char **argv)
   if (!strncmp (f, "mpz_fdiv", 8) || !strncmp (f, "mpz_cdiv", 8) || !strcmp (f, "mpz_mod")) return t_mpz_div (f, budget);
   if (!strncmp (f, "mpz_cmp", 7) || !strncmp (f, "mpz_fits", 8) || !strncmp (f, "mpz_get", 7) || !strncmp (f, "mpz_set_", 8)) return t_mpz_c11 (f, budget);
   if (!strcmp (f, "raw")) { int r1 = t_raw (f, budget); return r1 ? r1 : t_raw_leak (budget); }
+  if (!strcmp (f, "mpz_divisible_2exp_p") || !strcmp (f, "mpq_equal")) return t_misc (f, budget);
   if (!strncmp (f, "mpq_", 4)) return t_mpq (f, budget);
   if (!strcmp (f, "mpf_neg") || !strcmp (f, "mpf_abs") || !strcmp (f, "mpf_set") || !strcmp (f, "mpf_integer_p") || !strcmp (f, "mpf_get_ui") || !strcmp (f, "mpf_get_si") || !strncmp (f, "mpf_fits_", 9) || !strcmp (f, "mpf_cmp_ui") || !strcmp (f, "mpf_set_ui") || !strcmp (f, "mpf_set_si") || !strcmp (f, "mpf_trunc") || !strcmp (f, "mpf_ceil") || !strcmp (f, "mpf_floor") || !strcmp (f, "mpf_cmp_si") || !strcmp (f, "mpf_swap") || !strcmp (f, "mpf_mul_2exp") || !strcmp (f, "mpf_div_2exp") || !strcmp (f, "mpf_set_z")) return t_mpf_exact (f, budget);
   if (!strcmp (f, "mpz_gcd_ui") || !strcmp (f, "mpz_invert") || !strcmp (f, "mpz_lcm")) return t_mpz_gcdfam (f, budget);
